@@ -206,7 +206,7 @@ fn render(v: &Value, reversed: bool, out: &mut String) {
     }
 }
 
-fn contents(s: &Schema) -> Vec<(String, Value)> {
+fn contents(s: &Schema, thorough: bool) -> Vec<(String, Value)> {
     let mut out = vec![("required only".to_owned(), s.required.clone())];
     let base = s.required.as_object().cloned().unwrap_or_default();
     for (k, v) in &s.optional {
@@ -220,6 +220,24 @@ fn contents(s: &Schema) -> Vec<(String, Value)> {
             m.insert((*k).to_owned(), v.clone());
         }
         out.push(("all optional fields".to_owned(), Value::Object(m)));
+    }
+    // thorough tier: every subset of the optional fields (complete shapes only: the pairs that must come together are
+    // kept together by judging such subsets as incomplete, like the single-field shapes)
+    if thorough && s.optional.len() >= 2 && s.optional.len() <= 8 {
+        for mask in 1u32..(1 << s.optional.len()) - 1 {
+            if mask.count_ones() < 2 {
+                continue;
+            }
+            let mut m = base.clone();
+            let mut names = vec![];
+            for (i, (k, v)) in s.optional.iter().enumerate() {
+                if mask & (1 << i) != 0 {
+                    m.insert((*k).to_owned(), v.clone());
+                    names.push(*k);
+                }
+            }
+            out.push((format!("+{}", names.join("+")), Value::Object(m)));
+        }
     }
     // contents that are maps keyed by identifiers have no "unknown field"
     if !matches!(s.ty, "m.receipt" | "m.direct") {
@@ -488,12 +506,13 @@ fn check_event(acc: &mut Acc, s: &Schema, label: &str, content: &Value, redacted
     }
 }
 
-pub fn run(_tier: &str) -> Report {
+pub fn run(tier: &str) -> Report {
+    let thorough = tier == "thorough";
     let mut acc = Acc { n: 0, nontrivial: 0, f_parse: vec![], f_fix: vec![], f_raw: vec![], f_panic: vec![], samples: vec![] };
     for escaped in [false, true] {
         ESCAPED.store(escaped, std::sync::atomic::Ordering::Relaxed);
         for s in schemas() {
-            for (label, content) in contents(&s) {
+            for (label, content) in contents(&s, thorough) {
                 for reversed in [false, true] {
                     check_event(&mut acc, &s, &label, &content, false, reversed);
                     if matches!(s.kind, Kind::State | Kind::Message) {
@@ -510,7 +529,7 @@ pub fn run(_tier: &str) -> Report {
         acc.samples.clone(),
     ));
     Report {
-        bound: format!("{} events: 41 event type shapes (36 specified + 5 unknown, of every kind) x content shapes (required only, each optional field, all optional fields, an unknown field) x original/redacted x sorted/reversed key order x plain / JSON-escaped spelling of every string, each also in sync / state / stripped format where applicable", acc.n),
+        bound: format!("{} events: 41 event type shapes (36 specified + 5 unknown, of every kind) x content shapes (required only, each optional field, all optional fields, an unknown field; thorough tier: every subset of the optional fields) x original/redacted x sorted/reversed key order x plain / JSON-escaped spelling of every string, each also in sync / state / stripped format where applicable", acc.n),
         cases: acc.n,
         obligations: vec![
             ("typed_deserialization_dispatches_by_type_and_exposes_the_json_fields", acc.n, acc.f_parse),
